@@ -30,7 +30,7 @@ CHECKS = {
          "TLA+ invariant RespellStutters model-checked with TLC; replay of all states with byte-exact values; trace validation", "6 (C02)"),
  "C11": ("exploration", "Process.tla states what a process around OptionParser::run() may do (spawn with a prediction, one output on the predicted stream with the predicted text, body only on success, exit 0/1); TLC checks StreamsAndStatus on the protocol; a seeded sample of the specification's cases is executed as a real process (argv through execve, four argv[0] shapes) and every run's event sequence is validated by TLC (ProcessTrace), the prediction's class being bound to what CmdLine.tla demands.",
          "TLA+ process protocol (Process.tla) model-checked; trace validation of real process runs with TLC", "6 (C11)"),
- "C20": ("translation_validation", "The specification has no feature parameter: the same specification-generated cases (CmdLine and GroupLine replay sets) are run by six builds of the harness ({}, autocomplete, autocomplete+docgen+batteries+derive, dull-color, bright-color, default) and class, value and monochrome text must be identical across builds and conform to the specification.",
+ "C20": ("translation_validation", "The specification has no feature parameter: the same specification-generated cases (CmdLine and GroupLine replay sets) are run by six builds of the harness ({}, autocomplete, autocomplete+docgen+batteries+derive, dull-color, bright-color, default) and class, value and monochrome text must be identical across builds and conform to the specification; a corpus of rendered documents (styled fragments, indented/nested/fenced code blocks, hard line breaks, non-ASCII and long first lines, each also as group header and command description) is rendered by every build and must agree, without panic.",
          "differential execution of TLC-generated cases across six feature builds, each checked against the TLA+ outcome", "6 (C20)"),
  "C14": (MC, "CmdLine.tla defines, for every viable state and partial last item, a lower bound MustOffer (visible names of the active level that extend a fresh prefix and are not already given; subcommand names that extend the typed word) and an upper bound MayOffer (visible matching names of the active or enclosing levels, completer values of the pending argument); TLC checks Must within May and enumerates every (state, partial); each request is run at revision 0 and the candidate set must lie between the bounds, the outcome being completion output; GroupLine.tla gives the same bounds for a level with choices, adjacent groups and adjacent subcommands.",
          "TLA+ bounds MustOffer/MayOffer model-checked with TLC; replay of every (state, partial) completion request", "6 (C14)"),
@@ -40,11 +40,11 @@ CHECKS = {
          "TLA+ acceptors (Markup.tla pushdown / line machine, HelpModel.tla listing) validating lexed real documents", "6 (C16)"),
  "C13": ("exploration", "Wrap.tla is an acceptor of console renderings (content with whitespace removed equals the unwrapped rendering; for widths >= 40 every line fits in width+2, is preformatted, or holds a single word after its indentation/definition term); WrapDesign model-checks that the greedy wrap of every small word sequence is accepted (not vacuous, not over-strict); help and error documents of definitions with grammar-generated texts are rendered at 25 (quick) / 300 (thorough) widths and every rendering and short form is validated by TLC (the short form must equal the full form without the later paragraphs, token for token; help texts are also given as Docs of several styled / embedded fragments); a real process built with `.max_width(w)` must print exactly the Display rendering at width w.",
          "TLA+ acceptor Wrap.tla (design-checked by WrapDesign) validating lexed real renderings at many widths", "6 (C13)"),
- "C15": ("exploration", "ShellWords.tla models shell word lexing (quotes, escapes, operators, active characters), bpaf's directive templates for zsh and bash and the line protocol of fish/elvish; ShellDesign model-checks that bpaf's quoting of every short hostile string lexes back to exactly one inert word; every completion output for revisions 1/7/8/9 (with and without a name) over hostile typed words, help texts, masks, groups and completer values is lexed and judged by TLC against the candidates computed at revision 0 (directives well-formed, data words inert, each candidate and file completer exactly once); a sample of bash outputs is sourced in a sandboxed real bash with stubs and canaries.",
+ "C15": ("exploration", "ShellWords.tla models shell word lexing (quotes, escapes, operators, active characters), bpaf's directive templates for zsh and bash and the line protocol of fish/elvish; ShellDesign model-checks that bpaf's quoting of every short hostile string lexes back to exactly one inert word; every completion output for revisions 1/7/8/9 (with and without a name) over hostile typed words, help texts, masks, groups and completer values is lexed and judged by TLC against the candidates computed at revision 0 (directives well-formed and one per line - a line break inside a quoted word only as part of the typed word -, data words inert, each candidate and file completer exactly once); a sample of bash outputs is sourced in a sandboxed real bash with stubs and canaries.",
          "TLA+ lexer/template acceptor ShellWords.tla (design-checked) validating real completion outputs; bash sandbox with canaries", "6 (C15)"),
  "C17": ("translation_validation", "Derive.tla states the documented derive rules as a function from a type definition to the definition of the hand-written equivalent (TLC checks it is total and well-formed on the family and prints the result); a generated crate contains the #[derive(Bpaf)] types; for every type TLC enumerates all lines up to the bound for the derived definition (CmdLine/GroupLine) and the derived parser, the hand-written parser built from that definition and the specification's outcome must agree on value, failure class and help/error text.",
          "TLA+ derive rules (Derive.tla) evaluated by TLC; differential run derived vs hand-written vs TLA+ outcome on TLC-enumerated lines", "6 (C17)"),
- "C04": ("exploration", "History.tla: one OptionParser object, calls identified by operation + arguments, Answer enabled only for an allowed result class and, when the call was made before, the identical result (design-checked on a tiny universe); sessions of parse/help/completion (revisions 0/1/7/8/9, with and without a name)/markdown/html/manpage calls over generic definitions (any, pure, choices, adjacent groups and commands, hidden items, control characters) and byte-grammar argument vectors run in a watched child process (hang and exit observable), every call repeated later, text vectors also handed over through the `&[&str]` and `&[String]` entry points (which must agree); TLC validates every recorded call against History.tla; an apparent hang must repeat under a longer watchdog.",
+ "C04": ("exploration", "History.tla: one OptionParser object, calls identified by operation + arguments, Answer enabled only for an allowed result class and, when the call was made before, the identical result (design-checked on a tiny universe); sessions of parse/help/completion (revisions 0/1/7/8/9, with and without a name)/markdown/html/manpage calls over generic definitions (any, pure, choices, adjacent groups and commands, hidden items, control characters) and byte-grammar argument vectors run in a watched child process (hang and exit observable), every call repeated later, each session under a fixed assignment of the variables its definition declares (help/version flags included), text vectors also handed over through the `&[&str]` and `&[String]` entry points (which must agree); TLC validates every recorded call against History.tla; an apparent hang must repeat under a longer watchdog.",
          "TLA+ history protocol (History.tla, design-checked) validating recorded sessions; child process under a watchdog", "6 (C04)"),
 }
 NOTE = "Bounded: exhaustive within the stated constants, sampled beyond; trusted: TLC, the JSON reader, the dynamic builder (public bpaf API only)."
